@@ -1550,24 +1550,33 @@ def rw_zip_to_index(func, k):
     for n in ast.walk(func):
         if isinstance(n, (ast.For, ast.comprehension)) and isinstance(n.iter, ast.Call) and isinstance(n.iter.func, ast.Name) and n.iter.func.id == 'zip' and len(n.iter.args) >= 2 \
                 and isinstance(n.target, ast.Tuple) and len(n.target.elts) == len(n.iter.args) and all(isinstance(t, ast.Name) for t in n.target.elts) \
-                and all(isinstance(a, ast.Name) for a in n.iter.args):
+                and all(isinstance(a, ast.Name) or (isinstance(a, (ast.Subscript, ast.Attribute)) and _is_pure(a, allow_calls=False)) for a in n.iter.args) and not n.iter.keywords:
             scope, q_ = func, _par.get(n)
             while q_ is not None and q_ is not func:
                 if isinstance(q_, FuncDef):
                     scope = q_
                     break
                 q_ = _par.get(q_)
-            N = _static_len(scope, n.iter)
+            N = _static_len(scope, n.iter) if all(isinstance(a, ast.Name) for a in n.iter.args) else None
             if N is not None:
                 sites.append((n, N))
             elif len(n.iter.args) == 2:
                 # Y = [... for v in X] / [... for j in range(len(X))] and neither X nor Y changes after that: len(Y) == len(X)
-                for X, Y in ((n.iter.args[0].id, n.iter.args[1].id), (n.iter.args[1].id, n.iter.args[0].id)):
+                for Xn, Yn in ((n.iter.args[0], n.iter.args[1]), (n.iter.args[1], n.iter.args[0])):
+                    if not isinstance(Yn, ast.Name):
+                        continue
+                    X, Y = ast.unparse(Xn), Yn.id
+                    xroots = {w.id for w in ast.walk(Xn) if isinstance(w, ast.Name)}
                     ydefs = [st for st in ast.walk(scope) if isinstance(st, ast.Assign) and len(st.targets) == 1 and isinstance(st.targets[0], ast.Name) and st.targets[0].id == Y]
                     ystores = [y for y in ast.walk(scope) if isinstance(y, ast.Name) and y.id == Y and isinstance(y.ctx, (ast.Store, ast.Del))]
-                    if len(ydefs) != 1 or len(ystores) != 1 or not (isinstance(ydefs[0].value, ast.ListComp) and len(ydefs[0].value.generators) == 1 and not ydefs[0].value.generators[0].ifs):
+                    if len(ydefs) != 1 or len(ystores) != 1:
                         continue
-                    it = ydefs[0].value.generators[0].iter
+                    yv = ydefs[0].value
+                    if isinstance(yv, ast.Call) and ast.unparse(yv.func) in ('np.array', 'np.asarray') and len(yv.args) == 1 and not yv.keywords:
+                        yv = yv.args[0]         # an array of the collected values has their number as its length
+                    if not (isinstance(yv, ast.ListComp) and len(yv.generators) == 1 and not yv.generators[0].ifs):
+                        continue
+                    it = yv.generators[0].iter
                     if not (ast.unparse(it) == X or ast.unparse(it) == 'range(len(%s))' % X):
                         continue
                     dl = ydefs[0].lineno
@@ -1577,11 +1586,13 @@ def rw_zip_to_index(func, k):
                     for y in ast.walk(scope):
                         if getattr(y, 'lineno', 0) < dl:
                             continue
-                        if isinstance(y, ast.Call) and isinstance(y.func, ast.Attribute) and y.func.attr in MUTATORS and ast.unparse(y.func.value) in (X, Y):
+                        if isinstance(y, ast.Call) and isinstance(y.func, ast.Attribute) and y.func.attr in MUTATORS and (ast.unparse(y.func.value) == Y or {w.id for w in ast.walk(y.func.value) if isinstance(w, ast.Name)} & xroots):
                             changed = True
-                        if isinstance(y, ast.Name) and y.id == X and isinstance(y.ctx, (ast.Store, ast.Del)):
+                        if isinstance(y, ast.Name) and y.id in xroots and isinstance(y.ctx, (ast.Store, ast.Del)):
                             changed = True
-                        if isinstance(y, (ast.AugAssign,)) and isinstance(y.target, ast.Name) and y.target.id in (X, Y):
+                        if isinstance(y, (ast.Subscript, ast.Attribute)) and isinstance(y.ctx, (ast.Store, ast.Del)) and ({w.id for w in ast.walk(y.value) if isinstance(w, ast.Name)} & (xroots | {Y})):
+                            changed = True
+                        if isinstance(y, (ast.AugAssign,)) and isinstance(y.target, ast.Name) and (y.target.id in xroots or y.target.id == Y):
                             changed = True
                     # the definition must not sit in a loop that the use is outside of (stale value of an earlier iteration)
                     q2, loops_def = _par.get(ydefs[0]), []
@@ -1591,8 +1602,8 @@ def rw_zip_to_index(func, k):
                         q2 = _par.get(q2)
                     inside_all = all(any(n is z or (isinstance(n, ast.comprehension) and _par.get(n) is z) for z in ast.walk(lp)) for lp in loops_def)
                     if not changed and inside_all:
-                        for nm in (X, Y):
-                            sites.append((n, ast.Call(func=ast.Name(id='len', ctx=ast.Load()), args=[ast.Name(id=nm, ctx=ast.Load())], keywords=[])))
+                        for nm in (Xn, Yn):
+                            sites.append((n, ast.Call(func=ast.Name(id='len', ctx=ast.Load()), args=[copy.deepcopy(nm)], keywords=[])))
                         break
     if k >= len(sites):
         return False
@@ -1600,7 +1611,8 @@ def rw_zip_to_index(func, k):
     par = parents_of(func)
     owner = par.get(g) if isinstance(g, ast.comprehension) else g
     tnames = [t.id for t in g.target.elts]
-    seqs = [a.id for a in g.iter.args]
+    seqs = [w.id for a in g.iter.args for w in ast.walk(a) if isinstance(w, ast.Name)]
+    seqx = [copy.deepcopy(a) for a in g.iter.args]
     scope = [owner]
     inner = [y for y in ast.walk(owner) if y is not g.target and not any(y is z for z in ast.walk(g.target))]
     if any(isinstance(y, ast.Name) and y.id in tnames + seqs and isinstance(y.ctx, (ast.Store, ast.Del)) for y in inner):
@@ -1611,10 +1623,10 @@ def rw_zip_to_index(func, k):
         if not all(_free_loop_name(func, t, inside, par) for t in tnames):
             return True
     iv = '_zi%d' % getattr(owner, 'lineno', 0)
-    sub = {t: q for t, q in zip(tnames, seqs)}
+    sub = {t: q for t, q in zip(tnames, seqx)}
     for y in list(ast.walk(owner)):
         if isinstance(y, ast.Name) and y.id in sub and isinstance(y.ctx, ast.Load) and not any(y is z for z in ast.walk(g.iter)):
-            replace_node(owner, y, fix(ast.Subscript(value=ast.Name(id=sub[y.id], ctx=ast.Load()), slice=ast.Name(id=iv, ctx=ast.Load()), ctx=ast.Load()), y))
+            replace_node(owner, y, fix(ast.Subscript(value=copy.deepcopy(sub[y.id]), slice=ast.Name(id=iv, ctx=ast.Load()), ctx=ast.Load()), y))
     g.target = fix(ast.Name(id=iv, ctx=ast.Store()), g.target)
     g.iter = fix(ast.Call(func=ast.Name(id='range', ctx=ast.Load()), args=[copy.deepcopy(N)], keywords=[]), g.iter)
     return True
